@@ -26,13 +26,20 @@ import re
 
 os.environ.setdefault("POLARS_MAX_THREADS", "1")  # many small frames in 16 workers: no inner thread pool
 
-from .. import common, docgen, rtfread
+from .. import common, docgen, laygen, rtfread
 from ..common import sub_rng
 
 RULE = ("unit: key sequences over {a,b,null} exhaustively (1 level: length<=6/8 with every page-start set; 2 levels: "
         "length<=4/5, 3 levels: length<=3/4 with sampled page-start sets) + random sequences up to length 60 "
         "(runs, nulls, empty strings, separator characters, shuffled column order, out-of-range and duplicate "
-        "page starts), contiguous and non-contiguous; docs: group_by 1-3 levels x plain/page_by/subline_by on "
+        "page starts), contiguous and non-contiguous; column NAMES (stream `names`, unit and docs): the group_by columns "
+        "(1-3 levels) and 1-3 columns NOT in group_by named with the layout family's name family (laygen.NAME_KINDS: "
+        "'*', '^...$' selectors, regex / prefix / extension / case variant of another column's - in particular a "
+        "group_by column's - name, empty, blank, non-ASCII, attribute names, numeric, punctuation, long, conversion "
+        "tokens, raw RTF), the other columns holding runs of equal values (nulls, '' included) in any column order, "
+        "every cell of a column not in group_by compared with the frame (a selector-like name on a group_by column "
+        "only when it matches itself, one level, no page start inside the frame: anything else raises inside polars on "
+        "the unchanged tree); docs: group_by 1-3 levels x plain/page_by/subline_by on "
         "other columns x nrow sweeping the page starts over every row position; histories (c13_hist.py): sequences "
         "of 2-9 evaluations in ONE fresh process over RELATED frames (row permutations contiguous and not, same key "
         "multiset with other values, sub-/supersets of rows, cells exchanged within a level, value<->null<->'', other "
@@ -61,6 +68,10 @@ MANIFEST = dict(
          "never identifies an accepted with a rejected table); the implementation's output is judged by the "
          "Lean-defined oracle, every step of a history by the rule for its own frame.",
     note="Pagination itself (which rows land on which page) is C04's; here the observed page heights are an input. "
+         "Column names: what a column is called must not matter - group_by and other columns carry names of the "
+         "layout family's name family and the other columns hold repeated values, so a suppression reaching a column "
+         "not named in group_by shows; group_by columns named like a polars selector ('*', '^...$') are covered only "
+         "where rtflite renders them at all (one level, a self-matching name, a single page). "
          "A null original renders as blank like a suppressed cell, so fill-down cannot (for any renderer) "
          "recover a null below a non-null value; the theorem says exactly that.",
     technique="Lean 4 proof (index-wise reasoning over column expressions, induction over rows) + differential "
@@ -255,6 +266,116 @@ def gen_random_case(rng, collision):
     return c
 
 
+# ------------------------------------------------------------------ column NAMES (the layout family's name family)
+# The streams above call the group columns g0.. and give the one other column a different text on every row: what the
+# service does must not depend on what a column is CALLED, and "columns not named in group_by are untouched" can only be
+# seen to fail on a column that holds REPEATED values on consecutive rows.  Here the group_by columns (1-3 levels) and
+# 1-3 other columns are named with members of `laygen.NAME_KINDS` / `laygen.draw_name` (polars selector syntax '*',
+# '^...$', regexes / prefixes / extensions / case variants of other names of the same frame, empty, blank, non-ASCII,
+# attribute names, numeric, punctuation, long, conversion tokens), the other columns hold runs of equal values (nulls
+# and "" included), the columns are in any order.
+#
+# Restriction to what rtflite renders at all (an observation about rtflite, reported with round 13): a
+# group_by column whose NAME is '*' or '^...$' is read by polars as a selector in `restore_page_context` /
+# `_suppress_hierarchical_columns` (ComputeError / DuplicateError "duplicate output name") and, when the regular
+# expression does not match the name itself, in `_suppress_single_column` (IndexError).  Such names are therefore drawn
+# for a group_by column only when they match themselves, with ONE level and no page start inside the frame; as names
+# of the OTHER columns they are drawn everywhere.
+SELF_SELECTORS = ["*", "^.*$", "^.+$", "^(.*)$", "^.*\\$$", "^\\^.*$"]
+
+
+def selector_like(name):
+    return name == "*" or (name.startswith("^") and name.endswith("$"))
+
+
+def _run_column(rng, n):
+    """a column of an 'other' role: runs of equal values on consecutive rows (so that a suppression would show)"""
+    pool = rng.choice((["x", "y", "z"], ["x", "y", None], ["x", "", None, "y"], ["a", "b"], ["1", "2", "10"]))
+    out, i = [], 0
+    prev = object()
+    while i < n:
+        v = rng.choice(pool)
+        run = rng.randint(1, 5)
+        if v == prev:
+            run += 1
+        out += [v] * min(run, n - i)
+        i = len(out)
+        prev = v
+    return out
+
+
+def _draw_names(rng, roles, gb_roles, selector_gb, raw_ok=True, banned=()):
+    """{role: name}: a name of the family for (most of) the roles; group_by roles get no selector-like name unless
+    `selector_gb` (then the single group_by role gets a self-matching selector)"""
+    names = {}
+    kinds = []
+    for r in roles:
+        if r in gb_roles and selector_gb:
+            # a name with a backslash is RTF-active where a header shows the names (like laygen's raw-rtf kind)
+            names[r] = rng.choice([x for x in SELF_SELECTORS if raw_ok or "\\" not in x])
+            kinds.append("selector-self@group")
+    for r in roles:
+        if r in names:
+            continue
+        if rng.random() < 0.25 and r not in banned:
+            names[r] = r
+            continue
+        current = [names.get(x, x) for x in roles if x != r]
+        # the relational kinds (regex / prefix / extension / case variant OF another name): of a group_by column's
+        # name in particular, for a column that is not one
+        ref = [names.get(g, g) for g in roles if g in gb_roles and g != r] if rng.random() < 0.4 else []
+        for _ in range(30):
+            kind, nm = laygen.draw_name(rng, ref or current, (), raw_ok=raw_ok, long_max=80)
+            if nm in current or nm in banned or nm in roles or re.match(r"^\s*r\d+c\d+\s*$", nm):
+                continue
+            if r in gb_roles and selector_like(nm):
+                continue
+            names[r] = nm
+            kinds.append(f"{kind}@{'group' if r in gb_roles else 'other'}")
+            break
+        else:
+            names[r] = r
+    return names, kinds
+
+
+def gen_named_case(rng):
+    base = gen_random_case(rng, collision=False)
+    L = len(base["gb"])
+    selector_gb = L == 1 and rng.random() < 0.5
+    by = dict((c[0], c[1]) for c in base["cols"])
+    n = len(by["g0"])
+    roles = [f"g{l}" for l in range(L)] + [f"o{j}" for j in range(rng.randint(1, 3))]
+    if rng.random() < 0.5:
+        roles.append("v")
+    for r in roles:
+        if r[0] == "o":
+            by[r] = _run_column(rng, n)
+    names, kinds = _draw_names(rng, roles, set(base["gb"]), selector_gb)
+    rng.shuffle(roles)
+    starts = base["starts"]
+    if selector_gb:      # no page start inside the frame (see above); out-of-range ones must be ignored
+        starts = [[], [n + rng.randint(0, 3)]]
+    return dict(level="unit", stream="names", cols=[[names[r], by[r]] for r in roles],
+                gb=[names[g] for g in base["gb"]], starts=starts, kind=base["kind"], name_kinds=kinds)
+
+
+def named_fixed_cases():
+    g = ["A", "A", "A", "B", "B", "B"]
+    o = ["x", "x", "y", "y", "y", "z"]
+    v = ["1", "2", "3", "4", "5", "6"]
+    out = []
+    for nm in SELF_SELECTORS:
+        out.append(dict(level="unit", stream="names", cols=[[nm, g], ["ARMCD", o], ["VAL", v]], gb=[nm], starts=[[]],
+                        kind="contig", name_kinds=["selector-self@group"]))
+        out.append(dict(level="unit", stream="names", cols=[["^x$", o], ["VAL", v], [nm, g]], gb=[nm], starts=[[], [7]],
+                        kind="contig", name_kinds=["selector-self@group", "selector-regex@other"]))
+    for gb in (["g0"], ["g0", "g1"], ["g0", "g1", "g2"]):
+        cols = [[c, g] for c in gb] + [["*", o], ["^g.*$", o], ["^.*$", v], ["", o], ["G0", o], ["g", o]]
+        out.append(dict(level="unit", stream="names", cols=cols, gb=gb, starts=[[], [1, 4], [2]], kind="contig",
+                        name_kinds=["selector-all@other", "regex-of-other@other"]))
+    return out
+
+
 def _proj(frame, gb):
     """observation projection of a frame: display text of group cells, exact other columns, names"""
     out = []
@@ -281,6 +402,12 @@ def judge_unit(res, case, ob, dr, known_collision):
     res.case(rec, nt)
     res.count(f"unit:{case['stream']}:L{len(gb)}", neval)
     res.count("unit:rejected" if dr["model_error"] else "unit:rendered", neval)
+    if case["stream"] == "names":
+        for kd in case.get("name_kinds") or []:
+            res.count("unit_name:" + kd, neval)
+        if not dr["model_error"] and any(
+                a is not None and a == b for nme, cells in case["cols"] if nme not in gb for a, b in zip(cells, cells[1:])):
+            res.count("unit_names:other-column-with-repeats-rendered", neval)
     res.corr_checked += neval
     legacy_same = False
     if "error" in ob:
@@ -342,7 +469,7 @@ def run_unit(res, tier, known_collision, corpus=()):
             unavailable = _run_unit_chunk(res, chunk, known_collision)
         chunk = []
 
-    for c in list(corpus) + fixed_cases():
+    for c in list(corpus) + fixed_cases() + named_fixed_cases():
         chunk.append(c)
     for c in unit_exhaustive(res.seed, tier):
         chunk.append(c)
@@ -351,6 +478,11 @@ def run_unit(res, tier, known_collision, corpus=()):
     n_rand = 3000 if tier == "quick" else 60000
     for k in range(n_rand):
         chunk.append(gen_random_case(sub_rng(res.seed, "c13rand", k), collision=(k % 6 == 5)))
+        if len(chunk) >= 60000:
+            flush()
+    n_named = 1500 if tier == "quick" else 20000
+    for k in range(n_named):
+        chunk.append(gen_named_case(sub_rng(res.seed, "c13names", k)))
         if len(chunk) >= 60000:
             flush()
     flush()
@@ -445,6 +577,47 @@ def gen_doc(rng, tier, k):
     return dict(level="doc", spec=spec, exp=exp)
 
 
+def gen_named_doc(rng, tier, k):
+    """a `gen_doc` document whose group_by and data columns carry names of the name family, with 1-2 more columns not
+    named in group_by that hold runs of equal values; every displayed cell of those is compared with the frame's
+    display text (`exp['others']`).  A selector-like group_by name: one level, one page (see SELF_SELECTORS)."""
+    case = gen_doc(rng, tier, k)
+    spec, exp = case["spec"], case["exp"]
+    L, n = exp["L"], exp["n"]
+    selector_gb = L == 1 and rng.random() < 0.6
+    cols, rows = spec["df"]["cols"], spec["df"]["rows"]
+    keep = [c for c in cols if c in ("p0", "s0")]
+    extra = [f"o{j}" for j in range(rng.randint(1, 2))]
+    inner = [c for c in cols if c not in keep] + extra
+    rng.shuffle(inner)
+    runs = {o: _run_column(rng, n) for o in extra}
+    new_cols = keep + inner
+    new_rows = [[runs[c][i] if c in runs else rows[i][cols.index(c)] for c in new_cols] for i in range(n)]
+    hdr_default = spec["headers"] == "default"
+    names, kinds = _draw_names(rng, inner, set(exp["gnames"]), selector_gb, raw_ok=not hdr_default,
+                               banned=("v", "p0", "s0"))
+    ren = lambda c: names.get(c, c)      # noqa: E731
+    removed = {c for c in keep if c not in exp["displayed"]}
+    if selector_gb:
+        spec["page"]["nrow"] = n + 20 + rng.randint(0, 20)
+        if exp["strategy"] != "plain":        # new_page / subline headings start pages: only the plain layout has one
+            for key in ("page_by", "subline_by", "new_page", "pageby_row"):
+                spec["body"].pop(key, None)
+            j = len(keep)
+            new_cols, new_rows, removed = new_cols[j:], [r[j:] for r in new_rows], set()
+            exp["strategy"] = "plain"
+    displayed = [c for c in new_cols if c not in removed]
+    spec["df"] = dict(cols=[ren(c) for c in new_cols], rows=new_rows)
+    spec["body"]["group_by"] = [ren(g) for g in exp["gnames"]]
+    if isinstance(spec["headers"], list) and spec["headers"]:
+        spec["headers"] = [dict(text=[f"H{j}" for j in range(len(displayed))])]
+    exp.update(displayed=[ren(c) for c in displayed], gnames=[ren(g) for g in exp["gnames"]],
+               roles={ren(c): c for c in displayed},
+               others={ren(o): ["" if v is None else v for v in runs[o]] for o in extra},
+               named=True, name_kinds=kinds)
+    return case
+
+
 def sweep_docs():
     """fixed frames, nrow swept so that page starts fall on every row position"""
     out = []
@@ -493,7 +666,7 @@ def _observe_doc(st, exp):
                 problems.append(f"row {i}: {len(b.cells)} cells for {len(disp)} displayed columns")
                 continue
             for m, j in tags:
-                if int(m.group(1)) != i or disp[j] != f"c{m.group(2)}":
+                if int(m.group(1)) != i or (exp.get("roles") or {}).get(disp[j], disp[j]) != f"c{m.group(2)}":
                     problems.append(f"row {i}: sentinel {m.group(0)!r} in column {disp[j]}")
             rows.append(dict(i=i, g=[b.cells[disp.index(g)].text for g in exp["gnames"]]))
             if exp.get("others"):      # displayed columns not named in group_by whose texts the case knows
@@ -566,6 +739,8 @@ def run_docs(res, tier, corpus=()):
     cases = list(corpus) + sweep_docs()
     for k in range(ndocs):
         cases.append(gen_doc(sub_rng(res.seed, "c13doc", k), tier, k))
+    for k in range(120 if tier == "quick" else 1500):
+        cases.append(gen_named_doc(sub_rng(res.seed, "c13namedoc", k), tier, k))
     obs = common.pool_map(_doc_worker, cases, chunksize=4)
     drv = common.driver_batch([doc_request(c, o) for c, o in zip(cases, obs)])
     start_positions = set()
@@ -581,6 +756,10 @@ def run_docs(res, tier, corpus=()):
         res.count(f"doc:{exp['strategy']}:L{exp['L']}")
         res.count(f"doc_verdict:{verdict}")
         res.count(f"doc_kind:{exp['kind']}")
+        if exp.get("named"):
+            res.count(f"doc_named:{verdict}")
+            for kd in exp.get("name_kinds") or []:
+                res.count("doc_name:" + kd)
         if o["status"] == "ok":
             res.count(f"doc_pages:{min(9, len(o['pages']))}")
             if exp["strategy"] == "sweep":
